@@ -409,9 +409,28 @@ func strayFraming(rep *hx.Report) {
 			if p.kind[:2] == "cr" {
 				strays = []byte{'X', ' ', '\t', 0, '(', ':', '\n'}
 			}
+			type variant struct {
+				how string
+				sb  byte
+			}
+			var vs []variant
 			for _, sb := range strays {
-				m := append([]byte{}, whole...)
-				m[pos-1] = sb
+				vs = append(vs, variant{"replaced by", sb})
+			}
+			if p.kind == "cr-tail" || p.kind == "cr-chunk-data" {
+				// where nothing but the CR may come next, a byte INSERTED in front of it is a framing error too
+				for _, sb := range []byte{' ', '\t', 'X', 0, '\n'} {
+					vs = append(vs, variant{"preceded by an inserted", sb})
+				}
+			}
+			for _, v := range vs {
+				sb := v.sb
+				m := append([]byte{}, whole[:pos-1]...)
+				m = append(m, sb)
+				if v.how != "replaced by" {
+					m = append(m, whole[pos-1])
+				}
+				m = append(m, whole[pos:]...)
 				m = append(m, "\r\n\r\n"...) // room for a parser that skips on
 				var bytewise [][]byte
 				for i := range m {
@@ -419,7 +438,7 @@ func strayFraming(rep *hx.Report) {
 				}
 				for k, segs := range [][][]byte{{m}, bytewise} {
 					got := implRun(b.client, 0, segs)
-					rep.Case(fmt.Sprintf("stray/%s/%s/%d/%d", b.name, p.kind, sb, k), true)
+					rep.Case(fmt.Sprintf("stray/%s/%s/%s/%d/%d", b.name, p.kind, v.how, sb, k), true)
 					rep.Stat("stray." + p.kind + "." + got.cls)
 					completes := 0
 					for _, e := range got.events {
@@ -432,7 +451,7 @@ func strayFraming(rep *hx.Report) {
 					}
 					if got.cls == "nil" || completes > 0 {
 						rep.Add(hx.Finding{Kind: "oracle", Property: "C08", Signature: "stray-byte-accepted-" + p.kind,
-							What:   fmt.Sprintf("%s: the %s at offset %d replaced by byte 0x%02x was not rejected: result %s", b.name, p.kind, pos-1, sb, got.out),
+							What:   fmt.Sprintf("%s: the %s at offset %d %s byte 0x%02x was not rejected: result %s", b.name, p.kind, pos-1, v.how, sb, got.out),
 							Replay: map[string]interface{}{"harness": "httpparse", "client": b.client, "readlimit": 0, "segments_hex": hexSegs(segs), "stream": string(m)}})
 					}
 				}
